@@ -50,12 +50,12 @@ func specPool(tier string) int {
 }
 
 func (check) Rule() string {
-	return "per case: a type program (struct with config tags / *struct / inline struct / map[string]T / []T / [N]T / interface{} over leaves string bool int int8-64 uint uint8-64 float32/64 time.Duration *regexp.Regexp, pointers to them, four hand-written leaf types with Validate or Unpack and a struct with Validate; validate tags min max positive nonzero required; depth <= 4) drawn from a seed-determined pool (thorough: 3000 programs, bounds the reflect.StructOf types per worker), a data tree generated FROM the program (numbers as int64/uint64/float64/decimal string, durations as text or seconds, free data below interface{}) loaded with NewFrom(PathSep(\".\"), VarExp, MetaData{src-<case>}) which must Unpack into the type (else valid-pair-rejected). Then up to 8 single faults, stratified over the fault kinds applicable in the tree (object/list for primitive, primitive for object/list, bool<->number, unparsable int/uint/float/bool/duration/regexp, out of range for every sized integer/float32/float64/duration incl. 2^63 and 2^64 floats, negative into unsigned, tag validators min/max/positive/nonzero/required with empty/null/missing, failing Validate()/Unpack() of the hand-written types, a struct setting left out whose first validated member then fails on its zero value, ${nope.missing}, self-referencing ${<path>}, array too short/long), each at one setting of the tree (struct fields, inline fields, map entries, list and array elements, below pointers, inside interface{} data). Every fault is observed on the configuration built directly and on one built by a randomly chosen other route: merge chains under the default policy (fault delivered by the later operand over an absent or placeholder setting / fault present first and the surroundings merged over it), AppendValues / PrependValues chains that cut the outermost list on the fault path into up to three operands (renumbering), NewFrom plus Remove of 1-3 extra elements in front of the fault in a list on the path (shifting), the value written by Set*/SetChild, an enclosing subtree attached by SetChild (fresh or taken from another tree), the key removed by Remove; the valid twin of every routed history must still unpack. Observations: Unpack (with and without PathSep), the getters that must fail for the fault (dotted name, name+idx, or relative to an intermediate Child), Unpack of an intermediate Child into the matching sub-type. Plus, per case, ~600 calls driving the error paths of Bool/Int/Uint/Float/String/Child, Has, CountField, Remove, Set*, SetChild, NewFrom, Merge and Unpack (missing, through primitives, through failing references, wrong types, unsupported values and targets, non-string keys, duplicate keys, broken ${ syntax, failing resolvers). Distinct = distinct (type program and tree shape, fault kind, depth class, route)."
+	return "per case: a type program (struct with config tags / *struct / inline struct / map[string]T / []T / [N]T / interface{} over leaves string bool int int8-64 uint uint8-64 float32/64 time.Duration *regexp.Regexp, pointers to them, four hand-written leaf types with Validate or Unpack and a struct with Validate; validate tags min max positive nonzero required; depth <= 4) drawn from a seed-determined pool (thorough: 3000 programs, bounds the reflect.StructOf types per worker), a data tree generated FROM the program (numbers as int64/uint64/float64/decimal string, durations as text or seconds, free data below interface{}) loaded with NewFrom(PathSep(\".\"), VarExp, MetaData{src-<case>}) which must Unpack into the type (else valid-pair-rejected). Then up to 8 single faults, stratified over the fault kinds applicable in the tree (object/list for primitive, primitive for object/list, bool<->number, unparsable int/uint/float/bool/duration/regexp, out of range for every sized integer/float32/float64/duration incl. 2^63 and 2^64 floats, negative into unsigned, tag validators min/max/positive/nonzero/required with empty/null/missing, failing Validate()/Unpack() of the hand-written types, a struct setting left out whose first validated member then fails on its zero value, ${nope.missing}, self-referencing ${<path>}, a reference into a cycle of two helper settings (x:${y}, y:${x}; struct targets only, which do not read the helpers), a reference through a primitive of the tree with two or more further segments (${k.x.y}), array too short/long; half of the reference faults are placed below an interface{} slot when the tree has one), each at one setting of the tree (struct fields, inline fields, map entries, list and array elements, below pointers, inside interface{} data). Every fault is observed on the configuration built directly and on one built by a randomly chosen other route: merge chains under the default policy (fault delivered by the later operand over an absent or placeholder setting / fault present first and the surroundings merged over it), AppendValues / PrependValues chains that cut the outermost list on the fault path into up to three operands (renumbering), NewFrom plus Remove of 1-3 extra elements in front of the fault in a list on the path (shifting), the input spelled in dotted keys (every edge into a non-empty dictionary or list folded into the key, \"a.b.c\":1 / \"a.l.0\":1 / \"a.l.1.k\":2 with lists spelled completely, or kept nested, decided per path; alone or as operands of the two default-policy chains; a quarter of the routed runs) so that namespaces and lists exist only implicitly, the value written by Set*/SetChild, an enclosing subtree attached by SetChild (fresh or taken from another tree), the key removed by Remove; the valid twin of every routed history must still unpack. Observations: Unpack (with and without PathSep), the getters that must fail for the fault (dotted name, name+idx, or relative to an intermediate Child), Unpack of an intermediate Child into the matching sub-type. Plus, per case, ~600 calls driving the error paths of Bool/Int/Uint/Float/String/Child, Has, CountField, Remove, Set*, SetChild, NewFrom, Merge and Unpack (missing, through primitives, through failing references, wrong types, unsupported values and targets, non-string keys, duplicate keys, broken ${ syntax, failing resolvers). Distinct = distinct (type program and tree shape, fault kind, depth class, route)."
 }
 
 func (check) Assumptions() []string {
 	return []string{
-		"the path an error names is read from the message: the quoted text after \"accessing '\", \"in field '\" or \"for key: '\"; it must equal the dotted path (keys and list indices) at which the generator put the fault; the source must appear as (source:'...')",
+		"the path an error names is read from the message: the quoted text after \"accessing '\" or \"in field '\" (not \"for key: '\" of a cyclic reference error: that names the reference closing the cycle); it must equal the dotted path (keys and list indices) at which the generator put the fault; the source must appear as (source:'...')",
 		"merge chains give every operand its own source src-<case>-op<k>: the exact operand is demanded when the faulty value is a primitive delivered by one operand; when the error is raised on behalf of the holder (required/missing/empty, array length, references, containers in place of primitives) any source of the chain is accepted",
 		"single fault only: all other settings conform to the type, so which of several guilty settings is named cannot arise; keys never contain '.', quotes or '$', and are never numeric",
 		"target types never put pointers inside slices or maps, never point to maps, slices or arrays, use arrays only as struct fields and *regexp.Regexp only as a struct field (other shapes are C06/C07 findings)",
@@ -183,9 +183,39 @@ type cand struct {
 func (cs *caseState) selectFaults(ps []*position) []cand {
 	r := cs.r
 	byKind := map[string][]cand{}
+	var prims [][]seg
 	for _, p := range ps {
-		for _, f := range faultsAt(p, r.Intn) {
+		if p.node != nil && p.node.Kind == model.KPrim {
+			prims = append(prims, p.path)
+		}
+	}
+	env := faultEnv{pick: r.Intn, topStruct: cs.top.kind == kStruct, primFor: func(at []seg) string {
+		for try := 0; try < 4 && len(prims) > 0; try++ {
+			if q := prims[r.Intn(len(prims))]; pathStr(q) != pathStr(at) && !strings.HasPrefix(pathStr(q), pathStr(at)+".") {
+				return pathStr(q)
+			}
+		}
+		return ""
+	}}
+	for _, p := range ps {
+		for _, f := range faultsAt(p, env) {
 			byKind[f.kind] = append(byKind[f.kind], cand{p, f})
+		}
+	}
+	// reference faults matter most below an interface{} slot (the error has
+	// to be located inside free-form data): half of them are placed there
+	for k, l := range byKind {
+		if !strings.Contains(k, "reference") || r.Intn(2) == 0 {
+			continue
+		}
+		var deep []cand
+		for _, c := range l {
+			if c.pos.ifaceRoot != nil && len(c.pos.path) > len(c.pos.ifaceRoot) {
+				deep = append(deep, c)
+			}
+		}
+		if len(deep) > 0 {
+			byKind[k] = deep
 		}
 	}
 	kinds := make([]string, 0, len(byKind))
@@ -230,6 +260,9 @@ func (cs *caseState) runFault(pos *position, f fault) {
 	} else {
 		T = withNode(cs.V, pos.path, f.val.Copy())
 	}
+	for k, v := range f.extras {
+		T.D[k] = v.Copy()
+	}
 	res.Ev("faults_injected", 1)
 	res.SetAdd("fault_kind", f.kind)
 	res.SetAdd("target_shape", pos.shape())
@@ -246,7 +279,19 @@ func (cs *caseState) runFault(pos *position, f fault) {
 		return
 	}
 	rt := routes[cs.r.Intn(len(routes))]
-	if rt.name != "remove-key" && !cs.twin(rt, pos, f) {
+	if cs.r.Intn(4) == 0 {
+		// the dotted spellings get a fixed share of the runs
+		var dotted []route
+		for _, x := range routes {
+			if strings.HasPrefix(x.name, "dotted-") {
+				dotted = append(dotted, x)
+			}
+		}
+		if len(dotted) > 0 {
+			rt = dotted[cs.r.Intn(len(dotted))]
+		}
+	}
+	if !f.del && !cs.twin(rt, pos, f) {
 		return
 	}
 	cs.observe(rt, T, pos, f, baseline, obsSeed)
